@@ -123,6 +123,21 @@ out = ["",
        "  model does not have, only the generators stand, and an adversary who knows them can always pick the",
        "  next unvaried dimension — which is why the tie is reported as differential, generator-bounded, in",
        "  every evidence file.",
+       "* Round 6 repeated round 5 with the tester description brought up to date (repeat ops, relations, the",
+       "  static state inventory of section 3.3b); three of six agents failed on an API limit, the other three",
+       "  delivered 9 changes, none of which adds state. As they stood the checks caught 3 in the quick tier and",
+       "  a fourth (R6-6-3, a magic destination-address/byte-count pair in the length probe) only through the",
+       "  exhaustive 2^24 sweep of the thorough tier. The misses were conjunctions of specific constants in two",
+       "  or three unrelated fields (datagram bit x broadcast destination; three magic constructor arguments),",
+       "  a body that is itself a framed packet or starts with the call's own transport header, and — new — a",
+       "  dependence on *pointer identity* (the optional header passed as a sub-slice of the data slice). In",
+       "  response: products of special values over destination EID x source EID x flags x control byte,",
+       "  nested-packet bodies, an `encalias` op that passes aliased slices, routing entries built through the",
+       "  public constructor with bus-owner-style values, and exhaustive in-process enumerations wherever the",
+       "  domain allows it (`sweep routing-new` 2^26, `sweep transport-from-buf` 2^32, `sweep ctrl-new`, and the",
+       "  2^24 probe sweep moved into the quick tier — a few seconds each). All 9 are caught since. What",
+       "  remains out of reach by construction: conjunctions of arbitrary magic constants over domains too large",
+       "  to enumerate (e.g. a 28-byte routing table, a 250-byte body).",
        "* The Lean-side counterpart of these experiments is `Props/JudgeSound*.lean`: it proves that the judge",
        "  never says `fail` about the model. Proving it found three clauses where the judge was stricter than",
        "  the theorems on calls outside the documented argument shapes (routing entries that are not whole, a",
